@@ -129,7 +129,22 @@ WidenNeg(ty, init, wide, other, route) ==
   \o <<Set("z", WidenUse(ty)), V("z")>>
 \* a handle whose type is a UNION of cell types (element of a mixed cell array, `for' variable over it, union-typed
 \* parameter) may only be assigned a value EVERY member can store
+SA == WStruct(<< <<"a", WInt>> >>)
+SAB == WStruct(<< <<"a", WInt>>, <<"b", WInt>> >>)
 UnionCellNeg(route) ==
+  IF route = "callee-union-struct" THEN
+    \* a callee that is one of two functions over DIFFERENT struct parameters accepts only what both accept
+    <<FnDecl("f1", <<P("p", SA)>>, WInt, <<Ret(Field(V("p"), "a"))>>), FnDecl("f2", <<P("p", SAB)>>, WInt, <<Ret(Field(V("p"), "b"))>>),
+      FnDecl("pick", <<P("c", WBool)>>, WMulti(<<WFn(<<SA>>, WInt), WFn(<<SAB>>, WInt)>>), <<If1(V("c"), Ret(V("f1"))), Ret(V("f2"))>>),
+      Set("z", CallE(CallE(V("pick"), <<Hide(WBool, B(FALSE))>>), <<StructE(<< <<"a", I(1)>> >>)>>)), V("z")>>
+  ELSE IF route = "compound-value-narrow" THEN
+    \* `c += [1.5]' on a cell of [int|float] yields the whole new content, not a [float]
+    <<Set("c", MutE(WArr(WMulti(<<WInt, WFloat>>)), ArrE(<<I(1)>>))), Set("e", MutE(WArr(WFloat), ArrE(<<>>))),
+      Asg("=", V("e"), Asg("+=", V("c"), ArrE(<<F(3)>>))), Set("z", Bin("+", At(Deref(V("e")), I(0)), F(1))), V("z")>>
+  ELSE IF route = "compound-value-narrow-cell" THEN
+    <<Set("c", MutE(WArr(WMulti(<<WInt, WFloat>>)), ArrE(<<I(1)>>))),
+      Set("z", Bin("+", At(Asg("+=", V("c"), ArrE(<<F(3)>>)), I(0)), F(1))), V("z")>>
+  ELSE
   <<Set("hits", MutE(WInt, I(0))), Set("ratio", MutE(WFloat, F(1)))>> \o
   (CASE route = "for" -> <<For("c", IterE(ArrE(<<V("hits"), V("ratio")>>)), Block(<<Asg("=", V("c"), I(0))>>))>>
      [] route = "index" -> <<Set("cs", ArrE(<<V("hits"), V("ratio")>>)), Asg("=", At(V("cs"), I(1)), I(0))>>
@@ -137,7 +152,7 @@ UnionCellNeg(route) ==
                              CallE(V("rst"), <<V("ratio")>>)>>
      [] route = "compound" -> <<For("c", IterE(ArrE(<<V("hits"), V("ratio")>>)), Block(<<Asg("+=", V("c"), I(1))>>))>>)
   \o <<Set("z", Asg("+=", V("ratio"), F(1))), V("z")>>
-UnionCellSeq == <<"for", "index", "param", "compound">>
+UnionCellSeq == <<"for", "index", "param", "compound", "callee-union-struct", "compound-value-narrow", "compound-value-narrow-cell">>
 WidenSeq == SetToSeq({<<n, r>> : n \in 1..3, r \in {"param", "cellcell", "array", "closure"}})
 WidenOf(n) == CASE n = 1 -> <<WInt, I(1), IF_, F(5)>> [] n = 2 -> <<WStr, S(<<98>>), WMulti(<<WStr, WInt>>), I(3)>>
                 [] n = 3 -> <<WArr(WInt), ArrE(<<I(1)>>), WArr(IF_), ArrE(<<F(5)>>)>>
